@@ -65,3 +65,17 @@ Theorem C06_swap_view_refuted :
   exists p, ex_final = Good p /\ length (sweeps_since_clear p) = 1 /\ temperature_swaps nat p = [].
 Proof. unfold ex_final. eexists. split; [vm_compute; reflexivity|]. split; reflexivity. Qed.
 Print Assumptions C06_swap_view_refuted.
+
+(** With a dynamically annealed ladder: the annealer runs at the end of every sweep on the acceptance
+    ratios that sweep just wrote, so the ladder is a function of the sweeps made - and therefore the
+    same after any schedule of runs and clears as after the uninterrupted run. *)
+From Epsie Require Import Num Ladder Anneal_machine Anneal_machine_proofs.
+Theorem C06_annealed_ladder_schedule_independent :
+  forall {T : Type} `{Num T} (isneginf isnan : T -> bool) (vzero : T) (comps : list (list nat))
+         (nu tau : T) (st0 : @lstate T) (ops : list (op T)) (p p' : ptchain T),
+    PTInv T vzero p -> Forall (run_or_clear T) ops ->
+    execs T isneginf isnan vzero comps p ops = Good p' ->
+    exists q', run_steps T isneginf vzero p (all_steps T ops) = Good q'
+               /\ ladder_of nu tau st0 p' = ladder_of nu tau st0 q'.
+Proof. intros. eapply ladder_schedule_independent; eauto. Qed.
+Print Assumptions C06_annealed_ladder_schedule_independent.
